@@ -54,6 +54,8 @@ PROPS = {
                 topics=slice_of(['disconnect', 'join', 'receipt'], kinds=['outcome'])),
     'C07': dict(modules=['Hagall.Props.C07'], profiles=['join', 'mixed'], n=(240, 4000), focus={'join'},
                 topics=slice_of(['join', 'disconnect'], kinds=['state', 'gauge'])),
+    'C10': dict(modules=['Hagall.Props.C10'], profiles=['join', 'mixed', 'comp', 'module'], n=(240, 4000), focus={'join', 'entityAdd', 'typeAdd', 'assetAdd'},
+                topics=slice_of(['join', 'entityAdd', 'typeAdd', 'typeGetName', 'typeGetId', 'assetAdd'], kinds=['state'], answer_only=True)),
     'C12': dict(modules=['Hagall.Props.C12'], profiles=['comp', 'mixed'], n=(240, 4000), focus=set(COMP) | {'entityDelete'},
                 topics=slice_of(COMP + ['entityDelete'])),
     'C13': dict(modules=['Hagall.Props.C13'], profiles=['comp', 'mixed'], n=(240, 4000),
@@ -61,6 +63,8 @@ PROPS = {
                 topics=slice_of(['compAdd', 'compDelete', 'compUpdate', 'subscribe', 'unsubscribe', 'disconnect', 'join'])),
     'C14': dict(modules=['Hagall.Props.C14'], profiles=['custom', 'mixed'], n=(240, 4000), focus={'custom'},
                 topics=slice_of(['custom'])),
+    'C16': dict(modules=['Hagall.Props.C16'], profiles=['module', 'mixed'], n=(240, 4000), focus={'action', 'assetAdd'},
+                topics=slice_of(['action', 'assetAdd', 'join', 'entityDelete', 'disconnect'])),
     'C17': dict(modules=['Hagall.Props.C17'], profiles=['mixed', 'comp', 'pose', 'custom', 'join'], n=(240, 4000), focus=None,
                 gen_args=[], topics=slice_of(ALL_TOPICS + ['disconnect'], outs=GATED)),
 }
